@@ -54,9 +54,15 @@ def part_a(rec, li, n, seed, only=None):
                     case = dict(part="a", li=li, n=n, fr=fr, to=to, rule=rule, fv=fv, supply=supply, omit=omit)
                     if only is not None and only != case:
                         continue
+                    da = xr.DataArray(base.copy(), dims=["b", S.dimname("X", fr)], name="q")
                     if g is None:
                         g = build_grid({"X": layout}, {"X": n}, gkw)
-                    da = xr.DataArray(base.copy(), dims=["b", S.dimname("X", fr)], name="q")
+                        if supply in ("grid", "gridmap", "default"):
+                            # an earlier call with dict-spelled per-call settings must not stick to the Grid
+                            try:
+                                g.cumsum(da, "X", to=to, boundary={"X": "extend" if rule != "extend" else "fill"}, fill_value={"X": 77.0})
+                            except Exception:
+                                pass
                     kw = dict(ckw)
                     if not omit:
                         kw["to"] = to
@@ -72,9 +78,9 @@ def part_a(rec, li, n, seed, only=None):
                     exp = S.ref_cumsum(base, fr, to, n, rule, fv)
                     if compare(rec, "single-axis", case, r, exp, ("b", S.dimname("X", to))) and supply == "call" and not omit:
                         try:
-                            r32 = g.cumsum(da.astype(np.float32), "X", **kw)
+                            r32 = g.cumsum(da.isel(b=slice(0, -1)).astype(np.float32), "X", **kw)
                             rec.calls += 1
-                            if r32.dims != r.dims or not np.array_equal(np.asarray(r32.values, dtype=float), exp):
+                            if r32.dims != r.dims or not np.array_equal(np.asarray(r32.values, dtype=float), exp[:-1]):
                                 rec.violation("single-axis", "values:float32", dict(case, dtype="float32"), exp, r32.values)
                         except Exception as e:
                             rec.violation("single-axis", "raise:float32:" + exc_sig(e), dict(case, dtype="float32"), "array", f"{type(e).__name__}: {e}"[:200])
